@@ -1,6 +1,7 @@
 \* C23 EvmProof: canonical chain 200..206, BlocksToWait 2, fork header at 204, deposits in the canonical state from 205
 SPECIFICATION Spec
-CONSTANTS G0 = 200
+CONSTANTS Mode = "chain"
+          G0 = 200
           Best = 206
           Wait = 2
           ForkAt = 204
